@@ -32,7 +32,7 @@ RULE = (
     "(float64, 1-D, C order) and variants: permuted points; 2-D, Fortran-ordered, strided, reversed-view, read-only and pandas-Series (shuffled index "
     "labels) containers of the same element sequence; extra ignored coordinates; integer-valued coordinates and/or data passed as int64 / int32 "
     "(and general float coordinates with integer data); queries reshaped to 0-d / 2-D / 3-D / Fortran / strided; queries with a size-1 northing; "
-    "linearity triples (d1, d2, a d1 + b d2) with a, b in +-10^[-12,12] or compensating the data magnitude, d2 in the same or another magnitude class, also with the caller re-using one data buffer. Option values are also spelled differently (numpy.bool_ / comparison result / 1, 0 / 0-d array for rescale; int, numpy integer, numpy float for mindist, damping, poisson, k, degree; keyword, positional, set_params) and compared with the plain spelling. Argument aliasing: easting / northing (and data, weights) as views of ONE common table - columns of an (n,2) table in both orders, `n, e = t.T`, rows of a (2,n) table, rows walked backwards, Fortran-ordered tables, columns / rows of a wider table holding data and weights too, columns of one DataFrame - must equal the fit on contiguous copies. Every group is also queried 2, 10 and 100 bounding-box diagonals outside the data (point order with another last point, layout, integer dtypes; KNeighbors with k up to n against brute force), and a few Spline cases predict n_query x n_forces > 1e7 in one call (1499..1513 forces, 7001 / 20011 queries) against slices of 500, a permuted fit and the reference model. Data magnitudes cycle through 1e-15, 1e-12, 1e-9, 1e-6, 1, 1e6, 1e12 (tolerances stay relative); coordinate extents 1e-2..1e6 and (30 %) 1e-8..1e12. Point sets are in general "
+    "linearity triples (d1, d2, a d1 + b d2) with a, b in +-10^[-12,12] or compensating the data magnitude, d2 in the same or another magnitude class, also with the caller re-using one data buffer. Option values are also spelled differently (numpy.bool_ / comparison result / 1, 0 / 0-d array for rescale; int, numpy integer, numpy float for mindist, damping, poisson, k, degree; keyword, positional, set_params) and compared with the plain spelling. Argument aliasing: easting / northing (and data, weights) as views of ONE common table - columns of an (n,2) table in both orders, `n, e = t.T`, rows of a (2,n) table, rows walked backwards, Fortran-ordered tables, columns / rows of a wider table holding data and weights too, columns of one DataFrame - must equal the fit on contiguous copies. Queries of different but broadcastable shapes ((1,N) with (M,1), (N,) with (M,1), scalar with array ...) must give the broadcast shape and the values of the explicitly broadcast query wherever the unchanged tree accepts them; two-component models get one data / weights component integer-valued in an integer dtype (array or Series) and the other float64 with fractions. Every group is also queried 2, 10 and 100 bounding-box diagonals outside the data (point order with another last point, layout, integer dtypes; KNeighbors with k up to n against brute force), and a few Spline cases predict n_query x n_forces > 1e7 in one call (1499..1513 forces, 7001 / 20011 queries) against slices of 500, a permuted fit and the reference model. Data magnitudes cycle through 1e-15, 1e-12, 1e-9, 1e-6, 1, 1e6, 1e12 (tolerances stay relative); coordinate extents 1e-2..1e6 and (30 %) 1e-8..1e12. Point sets are in general "
     "position, 4..150 points, scales 1e-2..1e6. A variant is non-trivial when the group has >= 4 points, non-constant data and the transformation "
     "really changed memory layout / container / order / dtype (checked on the arrays); distinct = hash of gridder configuration + inputs + variant."
 )
@@ -47,96 +47,113 @@ ASSUMPTIONS = [
 ]
 FLOORS = {  # ~40 % of what the unchanged tree produces at quick seed 0 (see evidence/C04.json for the observed counts); thorough = 20 x
     "quick": {
-        "eval:broadcast_shape": 202, "eval:dtype_invariance": 644, "eval:extra_coords_ignored": 132, "eval:fitted_model_owns_its_data": 50,
-        "eval:layout_invariance": 1394, "eval:linearity": 103, "eval:permutation_invariance": 124, "eval:predict_shape": 5221,
-        "eval:query_layout": 1174, "eval:reference_agreement": 28, "eval:refit_history": 379, "distinct_nontrivial": 3112,
-        "dtype_invariance:all_int32": 68, "dtype_invariance:coords_int32": 68, "dtype_invariance:coords_int64": 68,
-        "dtype_invariance:data_int64": 68, "dtype_invariance:float_coords_data_int64": 48, "dtype_invariance:query_int64": 68,
-        "forces:Spline:m==2n": 2, "forces:Spline:m==n": 4, "forces:Spline:m==n+1": 2, "forces:Spline:m==n-1": 2, "forces:VectorSpline2D:m==2n": 1,
-        "forces:VectorSpline2D:m==n": 2, "forces:VectorSpline2D:m==n+1": 1, "forces:VectorSpline2D:m==n-1": 1, "groups": 132,
-        "groups:ScipyGridder:nearest": 1, "groups:coordinate_extent_class=above_1e6": 10, "groups:coordinate_extent_class=below_1e-2": 11,
-        "groups:data_magnitude=1": 18, "groups:data_magnitude=1e+06": 17, "groups:data_magnitude=1e+12": 17, "groups:data_magnitude=1e-06": 19,
-        "groups:data_magnitude=1e-09": 19, "groups:data_magnitude=1e-12": 20, "groups:data_magnitude=1e-15": 20, "layout_invariance:2d": 101,
-        "layout_invariance:data_magnitude=1": 189, "layout_invariance:data_magnitude=1e+06": 186, "layout_invariance:data_magnitude=1e+12": 189,
-        "layout_invariance:data_magnitude=1e-06": 199, "layout_invariance:data_magnitude=1e-09": 199, "layout_invariance:data_magnitude=1e-12": 214,
-        "layout_invariance:data_magnitude=1e-15": 215, "layout_invariance:fortran": 101, "layout_invariance:readonly": 132,
-        "layout_invariance:reversed_view": 132, "layout_invariance:series": 132, "layout_invariance:strided": 132, "linearity:buffer_reuse": 46,
-        "linearity:data_magnitude=1": 14, "linearity:data_magnitude=1e+06": 13, "linearity:data_magnitude=1e+12": 12,
-        "linearity:data_magnitude=1e-06": 16, "linearity:data_magnitude=1e-09": 15, "linearity:data_magnitude=1e-12": 15,
-        "linearity:data_magnitude=1e-15": 15, "linearity:mixed_magnitudes": 28, "linearity:scalars=compensating": 51,
-        "linearity:scalars=general": 52, "permutation_invariance:data_magnitude=1": 16, "permutation_invariance:data_magnitude=1e+06": 16,
-        "permutation_invariance:data_magnitude=1e+12": 16, "permutation_invariance:data_magnitude=1e-06": 18,
-        "permutation_invariance:data_magnitude=1e-09": 18, "permutation_invariance:data_magnitude=1e-12": 18,
-        "permutation_invariance:data_magnitude=1e-15": 19, "query_layout:0d": 132, "query_layout:2d_fortran": 132, "query_layout:3d": 114,
-        "reference_agreement:m==2n": 4, "reference_agreement:m==n": 10, "reference_agreement:m==n+1": 4, "reference_agreement:m==n-1": 6,
-        "refit_history:chain": 12, "refit_history:cubic": 17, "refit_history:linear": 19, "refit_history:neighbors": 36,
-        "refit_history:other_points": 23, "refit_history:other_points_same_size": 22, "refit_history:same_points_permuted": 132,
-        "refit_history:same_points_permuted_vs_base": 115, "refit_history:spline": 76, "refit_history:subset": 39, "refit_history:superset": 45,
-        "refit_history:trend": 52, "refit_history:vector": 36, "refit_history:vector_of": 12, "groups:spelling:cubic": 3,
-        "groups:spelling:linear": 3, "groups:spelling:neighbors": 3, "groups:spelling:spline": 3, "groups:spelling:trend": 3,
-        "groups:spelling:vector": 3, "option_spelling:cubic": 48, "option_spelling:keyword": 73, "option_spelling:linear": 48,
-        "option_spelling:neighbors": 38, "option_spelling:positional": 73, "option_spelling:set_params": 89, "option_spelling:spline": 32,
-        "option_spelling:trend": 38, "option_spelling:vector": 32, "option_spelling:within_strict_tolerance": 236, "eval:option_spelling": 236,
-        "far_extrapolation:knn_brute_force": 17, "far_extrapolation:knn_k=n": 2, "far_extrapolation:knn_k=n-1": 2,
+        "eval:broadcast_shape": 253, "eval:dtype_invariance": 605, "eval:extra_coords_ignored": 118, "eval:fitted_model_owns_its_data": 46,
+        "eval:layout_invariance": 1242, "eval:linearity": 91, "eval:permutation_invariance": 110, "eval:predict_shape": 7110,
+        "eval:query_layout": 1046, "eval:reference_agreement": 24, "eval:refit_history": 335, "distinct_nontrivial": 3590,
+        "dtype_invariance:all_int32": 60, "dtype_invariance:coords_int32": 60, "dtype_invariance:coords_int64": 60,
+        "dtype_invariance:data_int64": 60, "dtype_invariance:float_coords_data_int64": 42, "dtype_invariance:query_int64": 60,
+        "forces:Spline:m==2n": 2, "forces:Spline:m==n": 4, "forces:Spline:m==n+1": 2, "forces:Spline:m==n-1": 1, "forces:VectorSpline2D:m==2n": 1,
+        "forces:VectorSpline2D:m==n": 2, "forces:VectorSpline2D:m==n+1": 1, "forces:VectorSpline2D:m==n-1": 1, "groups": 118,
+        "groups:ScipyGridder:nearest": 1, "groups:coordinate_extent_class=above_1e6": 10, "groups:coordinate_extent_class=below_1e-2": 9,
+        "groups:data_magnitude=1": 16, "groups:data_magnitude=1e+06": 16, "groups:data_magnitude=1e+12": 15, "groups:data_magnitude=1e-06": 16,
+        "groups:data_magnitude=1e-09": 16, "groups:data_magnitude=1e-12": 17, "groups:data_magnitude=1e-15": 18, "layout_invariance:2d": 90,
+        "layout_invariance:data_magnitude=1": 172, "layout_invariance:data_magnitude=1e+06": 169, "layout_invariance:data_magnitude=1e+12": 167,
+        "layout_invariance:data_magnitude=1e-06": 173, "layout_invariance:data_magnitude=1e-09": 176, "layout_invariance:data_magnitude=1e-12": 185,
+        "layout_invariance:data_magnitude=1e-15": 198, "layout_invariance:fortran": 90, "layout_invariance:readonly": 118,
+        "layout_invariance:reversed_view": 118, "layout_invariance:series": 118, "layout_invariance:strided": 118, "linearity:buffer_reuse": 43,
+        "linearity:data_magnitude=1": 13, "linearity:data_magnitude=1e+06": 12, "linearity:data_magnitude=1e+12": 12,
+        "linearity:data_magnitude=1e-06": 13, "linearity:data_magnitude=1e-09": 12, "linearity:data_magnitude=1e-12": 13,
+        "linearity:data_magnitude=1e-15": 14, "linearity:mixed_magnitudes": 24, "linearity:scalars=compensating": 43,
+        "linearity:scalars=general": 48, "permutation_invariance:data_magnitude=1": 15, "permutation_invariance:data_magnitude=1e+06": 14,
+        "permutation_invariance:data_magnitude=1e+12": 14, "permutation_invariance:data_magnitude=1e-06": 16,
+        "permutation_invariance:data_magnitude=1e-09": 15, "permutation_invariance:data_magnitude=1e-12": 15,
+        "permutation_invariance:data_magnitude=1e-15": 18, "query_layout:0d": 118, "query_layout:2d_fortran": 118, "query_layout:3d": 102,
+        "reference_agreement:m==2n": 3, "reference_agreement:m==n": 9, "reference_agreement:m==n+1": 4, "reference_agreement:m==n-1": 6,
+        "refit_history:chain": 12, "refit_history:cubic": 16, "refit_history:linear": 16, "refit_history:neighbors": 32,
+        "refit_history:other_points": 21, "refit_history:other_points_same_size": 20, "refit_history:same_points_permuted": 118,
+        "refit_history:same_points_permuted_vs_base": 102, "refit_history:spline": 67, "refit_history:subset": 35, "refit_history:superset": 38,
+        "refit_history:trend": 44, "refit_history:vector": 33, "refit_history:vector_of": 12, "groups:spelling:cubic": 2,
+        "groups:spelling:linear": 2, "groups:spelling:neighbors": 2, "groups:spelling:spline": 2, "groups:spelling:trend": 2,
+        "groups:spelling:vector": 2, "option_spelling:cubic": 42, "option_spelling:keyword": 64, "option_spelling:linear": 42,
+        "option_spelling:neighbors": 33, "option_spelling:positional": 64, "option_spelling:set_params": 78, "option_spelling:spline": 28,
+        "option_spelling:trend": 33, "option_spelling:vector": 28, "option_spelling:within_strict_tolerance": 207, "eval:option_spelling": 207,
+        "far_extrapolation:knn_brute_force": 16, "far_extrapolation:knn_k=n": 2, "far_extrapolation:knn_k=n-1": 2,
         "far_extrapolation:knn_k=small": 12, "far_extrapolation:layout:chain": 6, "far_extrapolation:layout:cubic": 8,
-        "far_extrapolation:layout:linear": 9, "far_extrapolation:layout:neighbors": 18, "far_extrapolation:layout:spline": 38,
-        "far_extrapolation:layout:trend": 26, "far_extrapolation:layout:vector": 18, "far_extrapolation:layout:vector_of": 6,
-        "far_extrapolation:permutation:chain": 5, "far_extrapolation:permutation:cubic": 8, "far_extrapolation:permutation:linear": 9,
-        "far_extrapolation:permutation:neighbors": 18, "far_extrapolation:permutation:spline": 36, "far_extrapolation:permutation:trend": 22,
-        "far_extrapolation:permutation:vector": 16, "far_extrapolation:permutation:vector_of": 5, "large:slices_of_500": 1, "large:permutation": 1,
-        "large:reference_subsample": 1, "large:n_queries=7001": 1, "eval:far_extrapolation": 274, "eval:large_call": 3,
-        "groups:ScipyGridder:cubic": 1, "groups:ScipyGridder:linear": 1, "layout_invariance:dataframe_columns": 70,
-        "layout_invariance:table(2,n)_rows": 66, "layout_invariance:table(n,2)": 66, "layout_invariance:table(n,2).T_unpacked": 69,
-        "layout_invariance:table(n,2)_fortran_northing_first": 68, "layout_invariance:table(n,2)_northing_first": 62,
-        "layout_invariance:table(n,2)_rows_backwards": 64, "layout_invariance:wide_table_columns": 63, "layout_invariance:wide_table_rows": 64,
-        "layout_invariance:wide_table_rows_backwards": 66, "query_layout:table_northing_first": 132, "query_layout:table_rows_backwards": 132,
+        "far_extrapolation:layout:linear": 8, "far_extrapolation:layout:neighbors": 17, "far_extrapolation:layout:spline": 33,
+        "far_extrapolation:layout:trend": 22, "far_extrapolation:layout:vector": 16, "far_extrapolation:layout:vector_of": 6,
+        "far_extrapolation:permutation:chain": 5, "far_extrapolation:permutation:cubic": 8, "far_extrapolation:permutation:linear": 8,
+        "far_extrapolation:permutation:neighbors": 17, "far_extrapolation:permutation:spline": 32, "far_extrapolation:permutation:trend": 18,
+        "far_extrapolation:permutation:vector": 15, "far_extrapolation:permutation:vector_of": 5, "large:slices_of_500": 1, "large:permutation": 1,
+        "large:reference_subsample": 1, "large:n_queries=7001": 1, "eval:far_extrapolation": 245, "eval:large_call": 3,
+        "groups:ScipyGridder:cubic": 1, "groups:ScipyGridder:linear": 1, "layout_invariance:dataframe_columns": 62,
+        "layout_invariance:table(2,n)_rows": 59, "layout_invariance:table(n,2)": 58, "layout_invariance:table(n,2).T_unpacked": 62,
+        "layout_invariance:table(n,2)_fortran_northing_first": 60, "layout_invariance:table(n,2)_northing_first": 56,
+        "layout_invariance:table(n,2)_rows_backwards": 56, "layout_invariance:wide_table_columns": 57, "layout_invariance:wide_table_rows": 55,
+        "layout_invariance:wide_table_rows_backwards": 60, "query_layout:table_northing_first": 118, "query_layout:table_rows_backwards": 118,
+        "broadcast_shape:(1,)x(M,)": 17, "broadcast_shape:(1,N)x(M,1)": 17, "broadcast_shape:(M,1)x(N,)": 4, "broadcast_shape:(N,) x scalar": 78,
+        "broadcast_shape:(N,)x(1,)": 82, "broadcast_shape:(N,)x(M,1)": 17, "broadcast_shape:(N,1)x(1,M)": 6, "broadcast_shape:0d x (M,1)": 14,
+        "broadcast_shape:chain:accepted": 12, "broadcast_shape:cubic:accepted": 32, "broadcast_shape:linear:accepted": 32,
+        "broadcast_shape:neighbors:accepted": 6, "broadcast_shape:scalar x (M,)": 14, "broadcast_shape:spline:accepted": 67,
+        "broadcast_shape:trend:accepted": 44, "broadcast_shape:vector:accepted": 50, "broadcast_shape:vector_of:accepted": 9,
+        "dtype_invariance:mixed_components:integer_component=0": 17, "dtype_invariance:mixed_components:integer_component=1": 24,
+        "dtype_invariance:mixed_components:vector": 31, "dtype_invariance:mixed_components:vector_of": 10,
+        "dtype_invariance:mixed_components:weights_too": 19, "groups:Chain_of_Vector": 3,
     },
     "thorough": {
-        "eval:broadcast_shape": 4040, "eval:dtype_invariance": 12880, "eval:extra_coords_ignored": 2640, "eval:fitted_model_owns_its_data": 1000,
-        "eval:layout_invariance": 27880, "eval:linearity": 2060, "eval:permutation_invariance": 2480, "eval:predict_shape": 104420,
-        "eval:query_layout": 23480, "eval:reference_agreement": 560, "eval:refit_history": 7580, "distinct_nontrivial": 62240,
-        "dtype_invariance:all_int32": 1360, "dtype_invariance:coords_int32": 1360, "dtype_invariance:coords_int64": 1360,
-        "dtype_invariance:data_int64": 1360, "dtype_invariance:float_coords_data_int64": 960, "dtype_invariance:query_int64": 1360,
-        "forces:Spline:m==2n": 40, "forces:Spline:m==n": 80, "forces:Spline:m==n+1": 40, "forces:Spline:m==n-1": 40,
+        "eval:broadcast_shape": 5060, "eval:dtype_invariance": 12100, "eval:extra_coords_ignored": 2360, "eval:fitted_model_owns_its_data": 920,
+        "eval:layout_invariance": 24840, "eval:linearity": 1820, "eval:permutation_invariance": 2200, "eval:predict_shape": 142200,
+        "eval:query_layout": 20920, "eval:reference_agreement": 480, "eval:refit_history": 6700, "distinct_nontrivial": 71800,
+        "dtype_invariance:all_int32": 1200, "dtype_invariance:coords_int32": 1200, "dtype_invariance:coords_int64": 1200,
+        "dtype_invariance:data_int64": 1200, "dtype_invariance:float_coords_data_int64": 840, "dtype_invariance:query_int64": 1200,
+        "forces:Spline:m==2n": 40, "forces:Spline:m==n": 80, "forces:Spline:m==n+1": 40, "forces:Spline:m==n-1": 20,
         "forces:VectorSpline2D:m==2n": 20, "forces:VectorSpline2D:m==n": 40, "forces:VectorSpline2D:m==n+1": 20, "forces:VectorSpline2D:m==n-1": 20,
-        "groups": 2640, "groups:ScipyGridder:nearest": 20, "groups:coordinate_extent_class=above_1e6": 200,
-        "groups:coordinate_extent_class=below_1e-2": 220, "groups:data_magnitude=1": 360, "groups:data_magnitude=1e+06": 340,
-        "groups:data_magnitude=1e+12": 340, "groups:data_magnitude=1e-06": 380, "groups:data_magnitude=1e-09": 380,
-        "groups:data_magnitude=1e-12": 400, "groups:data_magnitude=1e-15": 400, "layout_invariance:2d": 2020,
-        "layout_invariance:data_magnitude=1": 3780, "layout_invariance:data_magnitude=1e+06": 3720, "layout_invariance:data_magnitude=1e+12": 3780,
-        "layout_invariance:data_magnitude=1e-06": 3980, "layout_invariance:data_magnitude=1e-09": 3980,
-        "layout_invariance:data_magnitude=1e-12": 4280, "layout_invariance:data_magnitude=1e-15": 4300, "layout_invariance:fortran": 2020,
-        "layout_invariance:readonly": 2640, "layout_invariance:reversed_view": 2640, "layout_invariance:series": 2640,
-        "layout_invariance:strided": 2640, "linearity:buffer_reuse": 920, "linearity:data_magnitude=1": 280, "linearity:data_magnitude=1e+06": 260,
-        "linearity:data_magnitude=1e+12": 240, "linearity:data_magnitude=1e-06": 320, "linearity:data_magnitude=1e-09": 300,
-        "linearity:data_magnitude=1e-12": 300, "linearity:data_magnitude=1e-15": 300, "linearity:mixed_magnitudes": 560,
-        "linearity:scalars=compensating": 1020, "linearity:scalars=general": 1040, "permutation_invariance:data_magnitude=1": 320,
-        "permutation_invariance:data_magnitude=1e+06": 320, "permutation_invariance:data_magnitude=1e+12": 320,
-        "permutation_invariance:data_magnitude=1e-06": 360, "permutation_invariance:data_magnitude=1e-09": 360,
-        "permutation_invariance:data_magnitude=1e-12": 360, "permutation_invariance:data_magnitude=1e-15": 380, "query_layout:0d": 2640,
-        "query_layout:2d_fortran": 2640, "query_layout:3d": 2280, "reference_agreement:m==2n": 80, "reference_agreement:m==n": 200,
-        "reference_agreement:m==n+1": 80, "reference_agreement:m==n-1": 120, "refit_history:chain": 240, "refit_history:cubic": 340,
-        "refit_history:linear": 380, "refit_history:neighbors": 720, "refit_history:other_points": 460, "refit_history:other_points_same_size": 440,
-        "refit_history:same_points_permuted": 2640, "refit_history:same_points_permuted_vs_base": 2300, "refit_history:spline": 1520,
-        "refit_history:subset": 780, "refit_history:superset": 900, "refit_history:trend": 1040, "refit_history:vector": 720,
-        "refit_history:vector_of": 240, "groups:spelling:cubic": 60, "groups:spelling:linear": 60, "groups:spelling:neighbors": 60,
-        "groups:spelling:spline": 60, "groups:spelling:trend": 60, "groups:spelling:vector": 60, "option_spelling:cubic": 960,
-        "option_spelling:keyword": 1460, "option_spelling:linear": 960, "option_spelling:neighbors": 760, "option_spelling:positional": 1460,
-        "option_spelling:set_params": 1780, "option_spelling:spline": 640, "option_spelling:trend": 760, "option_spelling:vector": 640,
-        "option_spelling:within_strict_tolerance": 4720, "eval:option_spelling": 4720, "far_extrapolation:knn_brute_force": 340,
+        "groups": 2360, "groups:ScipyGridder:nearest": 20, "groups:coordinate_extent_class=above_1e6": 200,
+        "groups:coordinate_extent_class=below_1e-2": 180, "groups:data_magnitude=1": 320, "groups:data_magnitude=1e+06": 320,
+        "groups:data_magnitude=1e+12": 300, "groups:data_magnitude=1e-06": 320, "groups:data_magnitude=1e-09": 320,
+        "groups:data_magnitude=1e-12": 340, "groups:data_magnitude=1e-15": 360, "layout_invariance:2d": 1800,
+        "layout_invariance:data_magnitude=1": 3440, "layout_invariance:data_magnitude=1e+06": 3380, "layout_invariance:data_magnitude=1e+12": 3340,
+        "layout_invariance:data_magnitude=1e-06": 3460, "layout_invariance:data_magnitude=1e-09": 3520,
+        "layout_invariance:data_magnitude=1e-12": 3700, "layout_invariance:data_magnitude=1e-15": 3960, "layout_invariance:fortran": 1800,
+        "layout_invariance:readonly": 2360, "layout_invariance:reversed_view": 2360, "layout_invariance:series": 2360,
+        "layout_invariance:strided": 2360, "linearity:buffer_reuse": 860, "linearity:data_magnitude=1": 260, "linearity:data_magnitude=1e+06": 240,
+        "linearity:data_magnitude=1e+12": 240, "linearity:data_magnitude=1e-06": 260, "linearity:data_magnitude=1e-09": 240,
+        "linearity:data_magnitude=1e-12": 260, "linearity:data_magnitude=1e-15": 280, "linearity:mixed_magnitudes": 480,
+        "linearity:scalars=compensating": 860, "linearity:scalars=general": 960, "permutation_invariance:data_magnitude=1": 300,
+        "permutation_invariance:data_magnitude=1e+06": 280, "permutation_invariance:data_magnitude=1e+12": 280,
+        "permutation_invariance:data_magnitude=1e-06": 320, "permutation_invariance:data_magnitude=1e-09": 300,
+        "permutation_invariance:data_magnitude=1e-12": 300, "permutation_invariance:data_magnitude=1e-15": 360, "query_layout:0d": 2360,
+        "query_layout:2d_fortran": 2360, "query_layout:3d": 2040, "reference_agreement:m==2n": 60, "reference_agreement:m==n": 180,
+        "reference_agreement:m==n+1": 80, "reference_agreement:m==n-1": 120, "refit_history:chain": 240, "refit_history:cubic": 320,
+        "refit_history:linear": 320, "refit_history:neighbors": 640, "refit_history:other_points": 420, "refit_history:other_points_same_size": 400,
+        "refit_history:same_points_permuted": 2360, "refit_history:same_points_permuted_vs_base": 2040, "refit_history:spline": 1340,
+        "refit_history:subset": 700, "refit_history:superset": 760, "refit_history:trend": 880, "refit_history:vector": 660,
+        "refit_history:vector_of": 240, "groups:spelling:cubic": 40, "groups:spelling:linear": 40, "groups:spelling:neighbors": 40,
+        "groups:spelling:spline": 40, "groups:spelling:trend": 40, "groups:spelling:vector": 40, "option_spelling:cubic": 840,
+        "option_spelling:keyword": 1280, "option_spelling:linear": 840, "option_spelling:neighbors": 660, "option_spelling:positional": 1280,
+        "option_spelling:set_params": 1560, "option_spelling:spline": 560, "option_spelling:trend": 660, "option_spelling:vector": 560,
+        "option_spelling:within_strict_tolerance": 4140, "eval:option_spelling": 4140, "far_extrapolation:knn_brute_force": 320,
         "far_extrapolation:knn_k=n": 40, "far_extrapolation:knn_k=n-1": 40, "far_extrapolation:knn_k=small": 240,
-        "far_extrapolation:layout:chain": 120, "far_extrapolation:layout:cubic": 160, "far_extrapolation:layout:linear": 180,
-        "far_extrapolation:layout:neighbors": 360, "far_extrapolation:layout:spline": 760, "far_extrapolation:layout:trend": 520,
-        "far_extrapolation:layout:vector": 360, "far_extrapolation:layout:vector_of": 120, "far_extrapolation:permutation:chain": 100,
-        "far_extrapolation:permutation:cubic": 160, "far_extrapolation:permutation:linear": 180, "far_extrapolation:permutation:neighbors": 360,
-        "far_extrapolation:permutation:spline": 720, "far_extrapolation:permutation:trend": 440, "far_extrapolation:permutation:vector": 320,
+        "far_extrapolation:layout:chain": 120, "far_extrapolation:layout:cubic": 160, "far_extrapolation:layout:linear": 160,
+        "far_extrapolation:layout:neighbors": 340, "far_extrapolation:layout:spline": 660, "far_extrapolation:layout:trend": 440,
+        "far_extrapolation:layout:vector": 320, "far_extrapolation:layout:vector_of": 120, "far_extrapolation:permutation:chain": 100,
+        "far_extrapolation:permutation:cubic": 160, "far_extrapolation:permutation:linear": 160, "far_extrapolation:permutation:neighbors": 340,
+        "far_extrapolation:permutation:spline": 640, "far_extrapolation:permutation:trend": 360, "far_extrapolation:permutation:vector": 300,
         "far_extrapolation:permutation:vector_of": 100, "large:slices_of_500": 4, "large:permutation": 4, "large:reference_subsample": 4,
-        "large:n_queries=7001": 4, "large:n_queries=20011": 4, "eval:far_extrapolation": 5480, "eval:large_call": 24,
-        "groups:ScipyGridder:cubic": 20, "groups:ScipyGridder:linear": 20, "layout_invariance:dataframe_columns": 1400,
-        "layout_invariance:table(2,n)_rows": 1320, "layout_invariance:table(n,2)": 1320, "layout_invariance:table(n,2).T_unpacked": 1380,
-        "layout_invariance:table(n,2)_fortran_northing_first": 1360, "layout_invariance:table(n,2)_northing_first": 1240,
-        "layout_invariance:table(n,2)_rows_backwards": 1280, "layout_invariance:wide_table_columns": 1260, "layout_invariance:wide_table_rows": 1280,
-        "layout_invariance:wide_table_rows_backwards": 1320, "query_layout:table_northing_first": 2640, "query_layout:table_rows_backwards": 2640,
+        "large:n_queries=7001": 4, "eval:far_extrapolation": 4900, "eval:large_call": 24, "groups:ScipyGridder:cubic": 20,
+        "groups:ScipyGridder:linear": 20, "layout_invariance:dataframe_columns": 1240, "layout_invariance:table(2,n)_rows": 1180,
+        "layout_invariance:table(n,2)": 1160, "layout_invariance:table(n,2).T_unpacked": 1240,
+        "layout_invariance:table(n,2)_fortran_northing_first": 1200, "layout_invariance:table(n,2)_northing_first": 1120,
+        "layout_invariance:table(n,2)_rows_backwards": 1120, "layout_invariance:wide_table_columns": 1140, "layout_invariance:wide_table_rows": 1100,
+        "layout_invariance:wide_table_rows_backwards": 1200, "query_layout:table_northing_first": 2360, "query_layout:table_rows_backwards": 2360,
+        "broadcast_shape:(1,)x(M,)": 340, "broadcast_shape:(1,N)x(M,1)": 340, "broadcast_shape:(M,1)x(N,)": 80,
+        "broadcast_shape:(N,) x scalar": 1560, "broadcast_shape:(N,)x(1,)": 1640, "broadcast_shape:(N,)x(M,1)": 340,
+        "broadcast_shape:(N,1)x(1,M)": 120, "broadcast_shape:0d x (M,1)": 280, "broadcast_shape:chain:accepted": 240,
+        "broadcast_shape:cubic:accepted": 640, "broadcast_shape:linear:accepted": 640, "broadcast_shape:neighbors:accepted": 120,
+        "broadcast_shape:scalar x (M,)": 280, "broadcast_shape:spline:accepted": 1340, "broadcast_shape:trend:accepted": 880,
+        "broadcast_shape:vector:accepted": 1000, "broadcast_shape:vector_of:accepted": 180,
+        "dtype_invariance:mixed_components:integer_component=0": 340, "dtype_invariance:mixed_components:integer_component=1": 480,
+        "dtype_invariance:mixed_components:vector": 620, "dtype_invariance:mixed_components:vector_of": 200,
+        "dtype_invariance:mixed_components:weights_too": 380, "groups:Chain_of_Vector": 60, "large:n_queries=20011": 4,
     },
 }
 JOBS = {"quick": 1, "thorough": 16}
@@ -145,8 +162,8 @@ CASE_TIMEOUT_S = 240
 
 def plan(tier):
     if tier == "quick":
-        return collections.OrderedDict(spline=70, trend=65, vector=32, neighbors=46, scipy=46, composite=32, forces=40, spelling=48, large=2)
-    return collections.OrderedDict(spline=1400, trend=1300, vector=640, neighbors=920, scipy=920, composite=640, forces=800, spelling=960, large=16)
+        return collections.OrderedDict(spline=60, trend=55, vector=30, neighbors=40, scipy=44, composite=30, forces=36, spelling=42, large=2)
+    return collections.OrderedDict(spline=1200, trend=1100, vector=600, neighbors=800, scipy=880, composite=600, forces=720, spelling=840, large=16)
 
 
 # ----------------------------------------------------------------------
@@ -486,25 +503,8 @@ def run_group(run, rng, model, east, north, data, weights, qe, qn, integer_base=
         if nontrivial:
             run.mark_nontrivial("query", qname, conf, east, north, qe, qn)
 
-    # -- size-1 northing: the prediction has the broadcast shape ----------------------------
-    if model.kind in ("spline", "trend", "vector", "linear", "cubic") and qe.size > 1:
-        n0 = float(qn[0])
-        for bname, b in (("0-d northing", np.float64(n0)), ("size-1 northing", np.array([n0]))):
-            wit = dict(base_witness, variant="broadcast:" + bname)
-            full = attempt("broadcast_shape", bname, lambda: _flat(_predict(est0, (qe, np.full(qe.shape, n0)))), wit, "broadcast")
-            res = attempt("broadcast_shape", bname, lambda: _predict(est0, (qe, b)), wit, "broadcast")
-            if res is None or full is None:
-                continue
-            run.evaluated("broadcast_shape")
-            if any(np.shape(c) != qe.shape for c in res):
-                run.violation("broadcast_shape", "%s: easting %s with %s gave shape %s, the broadcast shape is %s" % (group, qe.shape, bname, [np.shape(c) for c in res], qe.shape),
-                              wit, key="broadcast:shape")
-                continue
-            with np.errstate(all="ignore"):
-                tol_b = 64 * EPS * reference(model, east, north, data, weights, qe, np.full(qe.size, n0))["terms"]
-            _compare(run, "broadcast_shape", group, "easting with " + bname, full, _flat(res), tol_b, wit, "broadcast")
-            if nontrivial:
-                run.mark_nontrivial("broadcast", bname, conf, east, north, qe, n0)
+    # -- different but broadcastable query shapes -----------------------------------------------
+    _broadcast_class(run, rng, model, group, conf, base_witness, est0, qe, qn, 64 * EPS * 4.0 * float(np.max(refm["terms"])), attempt, nontrivial)
 
     # -- permuted points ----------------------------------------------------------------
     perm = rng.permutation(east.size)
@@ -565,6 +565,116 @@ def run_group(run, rng, model, east, north, data, weights, qe, qn, integer_base=
         _dtype_class(run, rng, imodel, imodel.label, iconf, integer_base, weights, attempt)
     if float_int_data is not None:
         _float_coords_int_data(run, rng, model, group, conf, east, north, float_int_data, weights, qe, qn, attempt)
+    _mixed_component_dtypes(run, rng, model, group, conf, east, north, data, weights, qe, qn, attempt)
+
+
+BROADCAST_SHAPES = ("(1,N)x(M,1)", "(N,1)x(1,M)", "(N,)x(M,1)", "(M,1)x(N,)", "scalar x (M,)", "(N,) x scalar", "(N,)x(1,)", "(1,)x(M,)", "0d x (M,1)")
+# what the unchanged tree accepts (probed): everything for the SciPy-backed gridders; a size-1 northing for Spline / Trend / Chain / Vector;
+# any size-1 operand in one dimension for VectorSpline2D; nothing for KNeighbors. Other combinations are tried as well: a refusal is counted, a normal
+# return is judged like the accepted ones (contracts judge normal returns).
+BROADCAST_ACCEPTED = {
+    "linear": BROADCAST_SHAPES, "cubic": BROADCAST_SHAPES, "scipy_nearest": BROADCAST_SHAPES,
+    "spline": ("(N,) x scalar", "(N,)x(1,)"), "trend": ("(N,) x scalar", "(N,)x(1,)"), "chain": ("(N,) x scalar", "(N,)x(1,)"), "vector_of": ("(N,) x scalar", "(N,)x(1,)"),
+    "vector": ("scalar x (M,)", "(N,) x scalar", "(N,)x(1,)", "(1,)x(M,)", "0d x (M,1)"), "neighbors": (),
+}
+
+
+def _broadcast_queries(qe, qn):
+    n_e, n_n = min(5, qe.size), min(4, qn.size)
+    a, b = qe[:n_e], qn[qn.size - n_n:]
+    return {"(1,N)x(M,1)": (a.reshape(1, -1), b.reshape(-1, 1)), "(N,1)x(1,M)": (a.reshape(-1, 1), b.reshape(1, -1)), "(N,)x(M,1)": (a, b.reshape(-1, 1)),
+            "(M,1)x(N,)": (b.reshape(-1, 1) * 0 + a[:n_n].reshape(-1, 1), qn[:n_e]), "scalar x (M,)": (np.float64(a[0]), b), "(N,) x scalar": (a, np.float64(b[0])),
+            "(N,)x(1,)": (a, b[:1]), "(1,)x(M,)": (a[:1], b), "0d x (M,1)": (np.array(a[0]), b.reshape(-1, 1))}
+
+
+def _broadcast_class(run, rng, model, group, conf, base_witness, est0, qe, qn, tol_scale, attempt, nontrivial):
+    """Easting and northing of different but broadcastable shapes: broadcast shape, values of the explicitly broadcast contiguous query."""
+    if qe.size < 4:
+        return
+    key = "scipy_nearest" if getattr(model, "owns_data", True) is False else model.kind
+    accepted = BROADCAST_ACCEPTED.get(key, ())
+    if "neighbors" in _kinds(model) and key != "scipy_nearest":
+        accepted = ()  # a KNeighbors component accepts none of them
+    queries = _broadcast_queries(qe, qn)
+    if len(accepted) == len(BROADCAST_SHAPES):  # the two-dimensional outer-product shapes always, two of the others
+        names = ["(1,N)x(M,1)", "(N,)x(M,1)"] + [str(s) for s in rng.permutation([s for s in accepted if s not in ("(1,N)x(M,1)", "(N,)x(M,1)")])[:2]]
+    else:
+        names = [str(s) for s in rng.permutation(list(accepted))[:3]] + [str(s) for s in rng.permutation([s for s in BROADCAST_SHAPES if s not in accepted])[:1]]
+    for bname in names:
+        a, b = queries[bname]
+        full_a, full_b = (np.ascontiguousarray(x) for x in np.broadcast_arrays(a, b))
+        wit = dict(base_witness, variant="broadcast:" + bname, query_east=np.asarray(a), query_north=np.asarray(b))
+        if bname not in accepted:
+            try:
+                res = _predict(est0, (a, b))
+            except Exception:  # noqa: BLE001 - not accepted on the unchanged tree either: counted, not judged (DESIGN 3(d))
+                run.count("refused:broadcast:%s:%s" % (model.kind, bname))
+                continue
+        else:
+            res = attempt("broadcast_shape", bname, lambda: _predict(est0, (a, b)), wit, "broadcast:" + bname)
+            if res is None:
+                continue
+        full = attempt("broadcast_shape", bname + "(explicit)", lambda: _flat(_predict(est0, (full_a, full_b))), wit, "broadcast-explicit")
+        if full is None:
+            continue
+        run.evaluated("broadcast_shape")
+        run.count("broadcast_shape:" + bname)
+        run.count("broadcast_shape:%s:%s" % (model.kind, "accepted" if bname in accepted else "also_returned"))
+        if any(np.shape(c) != full_a.shape for c in res):
+            run.violation("broadcast_shape", "%s: easting %s with northing %s gave shape %s, the broadcast shape is %s"
+                          % (group, np.shape(a), np.shape(b), [np.shape(c) for c in res], full_a.shape), wit, key="broadcast:shape:" + model.kind)
+            continue
+        _compare(run, "broadcast_shape", group, "easting %s with northing %s vs the explicitly broadcast query" % (np.shape(a), np.shape(b)), full, _flat(res), tol_scale, wit,
+                 "broadcast:" + model.kind)
+        if nontrivial:
+            run.mark_nontrivial("broadcast", bname, conf, qe, qn)
+
+
+def _mixed_component_dtypes(run, rng, model, group, conf, east, north, data, weights, qe, qn, attempt):
+    """Two-component data (and weights) whose components have DIFFERENT dtypes: one integer-valued in an integer dtype, the other float64 with fractions."""
+    import pandas as pd
+
+    if model.ncomp != 2:
+        return
+    for which in (int(rng.integers(0, 2)),):  # the integer component is the first or the second one
+        ints = np.round(data[which] / (np.max(np.abs(data[which])) or 1.0) * 500.0)
+        mixed = tuple(ints if k == which else data[k] for k in range(2))
+        wbase = weights
+        if weights is not None:  # integer-valued weights for the other component
+            wbase = tuple(np.round(1 + 4 * rng.random(east.size)) if k != which else weights[k] for k in range(2))
+        wit0 = dict(conf, east=east, north=north, data=list(mixed), weights=None if wbase is None else list(wbase), query_east=qe, query_north=qn)
+        base = attempt("dtype_invariance", "mixed-base", lambda: _flat(_predict(_fit(model, (east, north), mixed, wbase), (qe, qn))), wit0, "mixed-base")
+        if base is None:
+            return
+        with np.errstate(all="ignore"):
+            refm = reference(model, east, north, mixed, wbase, qe, qn)
+        rel = K_COND * refm["kappa_eff"] * EPS
+        if refm["skip"] is not None or rel > UNINFORMATIVE:
+            run.count("skipped:uninformative_dtype")
+            continue
+        tol = (rel + 64 * EPS) * refm["scale"]
+        for dt, container in ((("int64", "array"), ("int32", "series")) if rng.random() < 0.5 else (("int32", "array"), ("int64", "series"))):
+            if True:
+                def typed(arr):
+                    out = arr.astype(dt)
+                    return pd.Series(out, index=rng.permutation(out.size) + 100) if container == "series" else out
+
+                vdata = tuple(typed(mixed[k]) if k == which else mixed[k] for k in range(2))
+                vweights = wbase if wbase is None else tuple(typed(wbase[k]) if k != which else wbase[k] for k in range(2))
+                vname = "component%d_%s_%s" % (which, dt, container)
+                wit = dict(wit0, variant="dtype:mixed:" + vname, integer_dtype=dt)
+                got = attempt("dtype_invariance", vname, lambda: _flat(_predict(_fit(model, (east, north), vdata, vweights), (qe, qn))), wit, "dtype:mixed")
+                if got is None:
+                    continue
+                run.evaluated("dtype_invariance")
+                run.count("dtype_invariance:mixed_components:%s" % model.kind)
+                run.count("dtype_invariance:mixed_components:integer_component=%d" % which)
+                if wbase is not None:
+                    run.count("dtype_invariance:mixed_components:weights_too")
+                worst = _compare(run, "dtype_invariance", group, "component %d integer-valued as %s %s, the other float64 with fractions" % (which, dt, container), base, got, tol, wit,
+                                 "dtype:mixed:" + model.kind)
+                run.observe_max("dtype_error_over_tolerance", worst)
+                run.mark_nontrivial("dtype-mixed", vname, conf, east, north, mixed)
 
 
 def _refit_histories(run, rng, model, group, conf, east, north, data, weights, qe, qn, base, tol_cond, informative, nontrivial, attempt):
@@ -1189,6 +1299,10 @@ def _stream_composite(run, rng, verde, index):
         else:
             model = Model("vector_of", "Vector[Trend(%d), %s]" % (degree, spline.label), lambda: verde.Vector([verde.Trend(degree), spline.make()]), ncomp=2,
                           components=(trend, spline))
+            if index % 4 == 1:  # the same two-component model as the only step of a Chain
+                model = Model("vector_of", "Chain[Vector[Trend(%d), %s]]" % (degree, spline.label),
+                              lambda: verde.Chain([("vector", verde.Vector([verde.Trend(degree), spline.make()]))]), ncomp=2, components=(trend, spline))
+                run.count("groups:Chain_of_Vector")
     qe, qn = _queries(rng, east, north, 12)
     ib = _integer_inputs(rng, n, model.ncomp, radius=int(rng.choice([40, 300, 2000]))) if index % 2 == 0 or weights is None else None
     run_group(run, rng, model, east, north, data, weights, qe, qn, integer_base=ib)
